@@ -18,7 +18,7 @@ var gxzComponents = map[string][]string{
 	"oracles": {"executable model of the documented command line", "verif/ref/refxz, reflzma", "liblzma via cgo when linked"},
 }
 
-var safeNames = []string{"data.bin", "my file.txt", "report", "a b c.log", "x.tar", "notes.md", "IMG 0001.raw", "archive.dat", "weird.name.here", "Z"}
+var safeNames = []string{"data.bin", "my file.txt", "report", "a b c.log", "x.tar", "notes.md", "IMG 0001.raw", "archive.dat", "weird.name.here", "Z", "1", "true", "2024"}
 
 // genPlainFile draws an uncompressed input.
 func genPlainFile(r *sim.Rng, name string, max int) FileSpec {
@@ -248,9 +248,26 @@ func genC10(r *sim.Rng, tier string, idx int) *GCase {
 		tgt = in + ".xz"
 	}
 	if tgt != "" && r.Chance(1, 4) {
-		if r.Chance(1, 6) {
+		taken := false
+		for _, f := range c.Files {
+			taken = taken || f.Name == tgt
+		}
+		k := r.Weighted([]int{10, 2, 2})
+		if k == 2 && taken {
+			k = 0 // (the referent of a linked operand has this name: no link over it)
+		}
+		switch k {
+		case 1:
 			c.Files = append(c.Files, FileSpec{Name: tgt, Kind: "dir"})
-		} else {
+		case 2:
+			// the name is taken by a symbolic link: dangling, or to a file
+			ref := "nowhere"
+			if r.Bool() {
+				ref = "the referent"
+				c.Files = append(c.Files, genPlainFile(r, ref, 100))
+			}
+			c.Files = append(c.Files, FileSpec{Name: tgt, Kind: "symlink", Target: ref})
+		default:
 			c.Files = append(c.Files, genPlainFile(r, tgt, 200))
 		}
 	}
